@@ -472,7 +472,7 @@ static void p8302_biterr_case(uint64_t idx, void *arg)
 int main(int argc, char **argv)
 {
         mc_init(argc, argv, "C12");
-        mc_set_budget(120, 1200);
+        mc_set_budget(300, 1200);
         mc_meta("level", "exploration");
         mc_meta("technique", "bounded-exhaustive enumeration of codec value ranges against an independent bit-layout model");
         mc_meta("rule", "every (CNI,PIL) pair / raw BCD field / Hamming error pattern in the stated range is encoded or built by the reference, decoded by the library and compared; a case is non-trivial when it reaches the codec (all do); distinct counts work units (one CNI, one 1024/4096 value chunk, one base), each covering its whole sub-range");
